@@ -30,6 +30,7 @@ VALUES = [
 VAL = {v[0]: v for v in VALUES}
 SURELY_HUGE_FORCE = {'nan', '+inf', '-inf', '+1e300', '-1e300'}
 STATE = ('qpos', 'qvel', 'act')
+KNOWN_RANK = 'C30:newton-rank-deficient-mju_error-on-huge-finite-state'
 
 
 def warn_view(lib, d):
@@ -188,7 +189,18 @@ def run_injection(lib, variant, ck, case):
     # twin for the BADCTRL law: same data, ctrl zeroed ("set all to 0 if any are bad")
     if sure_badctrl and act_on and bp < 0 and bv < 0 and not m.nhistory:
       zc = lib.copy_data(m, d)
-    do_step(lib, m, d, mode, between)
+    try:
+      do_step(lib, m, d, mode, between)
+    except mj.MjError as e:
+      if 'rank-deficient' in str(e):
+        # known finding: the Newton solver raises a fatal mju_error on huge-but-accepted values before mj_checkAcc runs
+        ck.violation('mj_step raised mju_error instead of warning+reset: %s' % str(e)[:200],
+                     dict(xml=gm.xml, seed=seed, inj=inj, noreset=noreset, mode=mode, presteps=presteps),
+                     bucket='mju_error-rank-deficient', fingerprint=KNOWN_RANK)
+        ck.case(nontrivial=True, key=('rank', gm.xml, seed, tuple(map(tuple, inj)), noreset, mode, presteps, variant),
+                labels=['variant=' + variant, 'mju_error:rank-deficient'])
+        return
+      raise
     w = warn_view(lib, d)
     dnum = w[:, 1] - w0[:, 1]
     st1 = state_bits(d)
@@ -212,9 +224,20 @@ def run_injection(lib, variant, ck, case):
       # reference: reset state stepped once (reset clears ctrl / applied forces / warm start / time)
       if bp >= 0 or bv >= 0 or w[W['acc'], 1]:
         ref = lib.make_data(m)
-        do_step(lib, m, ref, mode)
+
+        def between_ref():      # inputs written between mj_step1 and mj_step2 are written after the reset as well
+          for f, i, v in step_inputs:
+            getattr(ref, f).reshape(-1)[i] = v
+        do_step(lib, m, ref, mode, between_ref)
         refbits = state_bits(ref)
-      if bp >= 0:
+      late_force = bool(step_inputs) and any(f != 'ctrl' for f, i, v in step_inputs)
+      if bp >= 0 and late_force and (w[W['acc'], 1] or ref is not None and warn_view(lib, ref)[W['acc'], 1]):
+        # reset in mj_step1, then an injected force made mj_step2 reset again: only the common end state is asserted
+        reached = True
+        if not same_bits(st1, refbits):
+          raise Violation('step1 reset + step2 reset: data differs from the reference [variant=%s]' % variant,
+                          bucket='reset-twice')
+      elif bp >= 0:
         reached = True
         if w[W['pos'], 1] < 1:
           raise Violation('qpos[%d] was bad before the step but BADQPOS was not raised [variant=%s]' % (bp, variant),
@@ -224,6 +247,11 @@ def run_injection(lib, variant, ck, case):
         if not same_bits(st1, refbits):
           raise Violation('after BADQPOS the data is not (reset state stepped once) [variant=%s]' % variant,
                           bucket='reset-BADQPOS')
+      elif bv >= 0 and late_force and (w[W['acc'], 1] or warn_view(lib, ref)[W['acc'], 1]):
+        reached = True
+        if not same_bits(st1, refbits):
+          raise Violation('step1 reset + step2 reset: data differs from the reference [variant=%s]' % variant,
+                          bucket='reset-twice')
       elif bv >= 0:
         reached = True
         if w[W['vel'], 1] < 1:
@@ -368,6 +396,61 @@ def run_unstable(lib, variant, ck, case, nsteps):
     delete(lib, ref)
 
 
+# ------------------------------------------------------------------------------------------- finite differences
+
+def fd_strategy():
+  models = mg.models(max_bodies=3, actuators=True, tendons=False, equalities=False, sensors=False,
+                     opt_kwargs=dict(sleep=False, integrators=('Euler', 'implicit', 'implicitfast')))
+  return st.tuples(models, mg.state_seed(), st.sampled_from(['qpos', 'qvel']), st.integers(0, 10 ** 6),
+                   st.sampled_from(['nan', '+inf', '+2max', '-1e300']), st.booleans())
+
+
+def run_fd(lib, variant, ck, case):
+  """mjd_transitionFD steps the model internally: a state that trips the automatic reset must not corrupt memory."""
+  gm, seed, target, r, vk, centered = case
+  E = lib.enums
+  M = float(E.mjMAXVAL)
+  try:
+    m = lib.model_from_xml(gm.xml)
+  except mj.MjError:
+    ck.discard('compile')
+    return
+  if not m.nv or m.nhistory:
+    ck.discard('fd:no-dof')
+    return
+  d = lib.make_data(m)
+  try:
+    mg.apply_state(lib, m, d, seed)
+    lib.mj_forward(m, d)
+    a = getattr(d, target)
+    idx = r % a.size
+    a[idx] = VAL[vk][1](M)
+    before = [np.asarray(d.qpos).copy(), np.asarray(d.qvel).copy(), np.asarray(d.act).copy()]
+    ps0, pb0 = int(d.pstack), int(d.pbase)
+    nv, na, nu = m.nv, m.na, m.nu
+    ndx = 2 * nv + na
+    A = np.zeros((ndx, ndx))
+    B = np.zeros((ndx, max(nu, 1)))
+    asanproc.journal(dict(family='fd', variant=variant, xml=gm.xml, seed=seed, target=target, idx=idx, value=vk,
+                          centered=centered))
+    lib.mjd_transitionFD(m, d, 1e-6, int(centered), A, B if nu else None, None, None)
+    if (int(d.pstack), int(d.pbase)) != (ps0, pb0):
+      raise Violation('mjd_transitionFD on a state with %s[%d]=%s returned with pstack=%d pbase=%#x (entered with %d, %#x)'
+                      % (target, idx, vk, d.pstack, d.pbase, ps0, pb0), bucket='fd-stack')
+    after = [np.asarray(d.qpos), np.asarray(d.qvel), np.asarray(d.act)]
+    same = all(np.array_equal(x.view(np.uint64), y.view(np.uint64)) for x, y in zip(before, after))
+    w = warn_view(lib, d)
+    ck.case(nontrivial=True, key=('fd', gm.xml, seed, target, idx, vk, centered, variant),
+            sample=dict(family='fd', variant=variant, target=target, idx=idx, value=vk, state_restored=bool(same)),
+            labels=['fd', 'fd:variant=' + variant, 'fd:state-restored' if same else 'fd:state-NOT-restored'])
+    if not same:
+      raise Violation('mjd_transitionFD on a state with %s[%d]=%s did not restore the input state (it saves and restores '
+                      'the state around every internal step): qpos %s -> %s' % (target, idx, vk, before[0][:4], after[0][:4]),
+                      bucket='fd-restore')
+  finally:
+    delete(lib, d)
+
+
 def handler(job):
   import time
   t0 = time.time()
@@ -377,6 +460,8 @@ def handler(job):
   name = '%s-%s-%d' % (job['family'], variant, job['shard'])
   if job['family'] == 'inject':
     ck.run_hypothesis(lambda case: run_injection(lib, variant, ck, case), case_strategy(), job['n'], name=name)
+  elif job['family'] == 'fd':
+    ck.run_hypothesis(lambda case: run_fd(lib, variant, ck, case), fd_strategy(), job['n'], name=name)
   else:
     ck.run_hypothesis(lambda case: run_unstable(lib, variant, ck, case, job['nsteps']), unstable_strategy(), job['n'],
                       name=name)
